@@ -28,7 +28,7 @@ RULE = ("real cmd_send.send()/cmd_receive.receive() against the real server, tra
         "delivered); distinct = (payload kind, size, fault, position, path).")
 ASSUMPTIONS = ["file modes/timestamps are not compared", "a leftover <dest>.tmp after a failure is allowed",
                "sizes <= ~1 MB, trees <= 12 entries"]
-FLOORS = {"quick": {"clean_success": 60, "data_faults_fired": 50, "ack_faults_fired": 10, "liar_cases": 20},
+FLOORS = {"quick": {"clean_success": 60, "data_faults_fired": 50, "ack_faults_fired": 10, "liar_cases": 20, "grow_cases": 15},
           "thorough": {"clean_success": 2000, "data_faults_fired": 4000, "ack_faults_fired": 250, "liar_cases": 800}}
 APPID = "lothar.com/wormhole/text-or-file-xfer"
 TEXTS = ["hello", "", "it's \"quoted\"", "line1\nline2\r\n\ttab", "\x1b[31mred\x1b[0m \x07bell", "‮evil‬ bidi",
@@ -70,6 +70,11 @@ def cases(tier, seed, prep=None):
                 out.append({"kind": "datafault", "payload": "file", "seed": base + k, "fault": kindf, "pos": ["frame", j],
                             "relay": k % 3 == 0, "min_records": 5})
                 k += 1
+    # the file changes between the offer and the transfer (the sender re-measures and reads to EOF)
+    for i in range(24 if q else 600):
+        out.append({"kind": "grow", "payload": "file", "seed": base + k, "size0": [0, 0, 5, 16384][i % 4], "append": [1, 100, 20000][i % 3],
+                    "relay": i % 5 == 0})
+        k += 1
     for i in range(28 if q else 1000):
         out.append({"kind": "liar", "payload": "file", "seed": base + k, "lie": ["wrong-hash", "not-ok", "garbage", "never"][i % 4]})
         k += 1
@@ -158,6 +163,10 @@ def _run(spec, world, rng, r, base):
         desc = {"kind": "text", "text": text}
     else:
         what, desc = make_tree(rng, sd, payload)
+        if spec["kind"] == "grow":
+            with open(os.path.join(sd, desc["name"]), "wb") as f:
+                f.write(rng.randbytes(spec["size0"]))
+            desc["size"] = spec["size0"]
         if spec.get("min_records") and payload == "file":
             n = 16384 * spec["min_records"] + rng.choice([0, 1, 777])
             with open(os.path.join(sd, desc["name"]), "wb") as f:
@@ -227,7 +236,14 @@ def _run(spec, world, rng, r, base):
                         e.out.fin = True
                         e._connection_lost(failure.Failure(error.ConnectionDone()))
 
+    grown = []
+
     def hook():
+        if spec["kind"] == "grow" and not grown and "Wormhole code is" in sa.stderr.getvalue():
+            # the offer (with the old size) has been built: the file grows now
+            grown.append(rng.randbytes(spec["append"]))
+            with open(os.path.join(sd, desc["name"]), "ab") as f:
+                f.write(grown[0])
         if rs.done:
             process_exit("s")
         if rr.done and receiver is not None:
@@ -304,6 +320,11 @@ def _run(spec, world, rng, r, base):
                          "msg": "sender reported success although the ack was %s" % (spec.get("lie") or "%s at byte %d" % (spec["fault"], fault[2])),
                          "witness": wit})
     # (d) no fault => both succeed
+    if kind == "grow" and so == "success" and ro == "success":
+        name = desc["name"]
+        if dst.get(name, (None,))[:3] != src[name][:3]:
+            viol.append({"key": "C04/file/differs-after-success", "msg": "the file grew from %d to %d bytes after the offer; both sides report success but the receiver has %r" % (
+                spec["size0"], src[name][1], dst.get(name)), "witness": wit})
     clean = kind == "clean" or (kind in ("datafault", "ackfault") and not fired)
     clean_failure = None
     if clean and not (so == "success" and ro == "success"):
@@ -316,7 +337,7 @@ def _run(spec, world, rng, r, base):
     return {"violations": viol, "nontrivial": nontrivial,
             "counters": {"clean_success": int(clean and so == "success" and ro == "success"),
                          "data_faults_fired": int(kind == "datafault" and fired), "ack_faults_fired": int(kind == "ackfault" and fired),
-                         "liar_cases": int(kind == "liar" and bool(liar_log)), "clean_failed": int(bool(clean_failure)), "hangs": int(bool(hang)), "faults_not_reached": int(kind in ("datafault", "ackfault") and not fired),
+                         "liar_cases": int(kind == "liar" and bool(liar_log)), "grow_cases": int(kind == "grow" and bool(grown)), "clean_failed": int(bool(clean_failure)), "hangs": int(bool(hang)), "faults_not_reached": int(kind in ("datafault", "ackfault") and not fired),
                          "payload_" + payload: 1, "via_relay": int(any(l.tags.get("port") == 4001 for l in r.links)),
                          "steps": world.step, "bytes_payload": desc.get("size", 0)},
             "sets": {"clean_transfers_that_failed": [clean_failure] if clean_failure else [],
